@@ -128,7 +128,7 @@ Example C16_history_example :
   let ch0 := b "Bearer realm=""https://auth.example/token"",service=""svc0"",scope=""repository:a:pull""" in
   let ch1 := b "Basic realm=""r""" in
   map (fun o => (map fst (fst o), snd o))
-    (run_model FShared false creds []
+    (run_model FShared false creds [] []
        [ (mkReq 0 [] [] BNone, [A401 ch0; ATok 7; AOk]);
          (mkReq 1 [] [] BNone, [A401 ch1; AOk]);
          (mkReq 0 [] [b "repository:a:pull"] BNone, [AOk]);
@@ -160,8 +160,8 @@ Theorem C16_valid_credentials_succeed :
   forall parse clean cf c rq script,
     let '(evs, c', r) := do_request clean parse cf c rq script in
     r <> RBad ->
-    rq_body rq <> BOnce ->
-    r <> RErr ENoCred -> r <> RErr EMissing ->
+    rewind_ok (rq_body rq) = true ->
+    r <> RErr ENoCred -> r <> RErr EMissing -> r <> RErr ECred ->
     (forall s, ~ In (s, AFail) evs) ->
     (forall s, ~ In (s, AErr) evs) ->
     (forall h a hdr, ~ In (SReg h a true, A401 hdr) evs) ->
@@ -357,7 +357,7 @@ Example C16_failed_send_example :
   let creds := [(0, mkCred true true false false)] in
   let ch0 := b "Bearer realm=""https://auth.example/token"",service=""svc0"",scope=""repository:a:pull""" in
   map (fun o => (map fst (fst o), snd o))
-    (run_model FShared false creds []
+    (run_model FShared false creds [] []
        [ (mkReq 0 [] [] BNone, [A401 ch0; AErr; AOk]);          (* the token request is cancelled *)
          (mkReq 0 [] [] BNone, [A401 ch0; ATok 9; AOk]) ])      (* nothing was cached: full flow again *)
   = [ ([SReg 0 NoAuth false;
@@ -456,7 +456,7 @@ Proof. exact concurrent_no_cross_host. Qed.
 Print Assumptions C16_concurrent_no_cross_host.
 
 Example C16_concurrent_example :
-  let cf := mkConfig FShared false (lookup_cred [(0, mkCred true true false false); (1, mkCred true true false false)]) in
+  let cf := mkConfig FShared false (lookup_cred [(0, mkCred true true false false); (1, mkCred true true false false)]) (err_hosts []) in
   let ch := b "Bearer realm=""https://auth.example/token"",service=""s"",scope=""repository:a:pull""" in
   match yrun clean_scopes parse_total cf yinit
           [YStart 1 (mkReq 0 [] [] BNone) [A401 ch; ATok 5; AOk];
